@@ -36,9 +36,9 @@ macro_rules! tokenizer_total {
         }
     };
 }
-// @h name=c15_tokenizer_total_2 props=C15 tier=quick
+// @h name=c15_tokenizer_total_2 props=C15 tier=thorough
 tokenizer_total!(c15_tokenizer_total_2, 2);
 // @h name=c15_tokenizer_total_3 props=C15 tier=thorough
 tokenizer_total!(c15_tokenizer_total_3, 3);
-// @h name=c15_tokenizer_total_1 props=C15 tier=quick
+// @h name=c15_tokenizer_total_1 props=C15 tier=thorough
 tokenizer_total!(c15_tokenizer_total_1, 1);
